@@ -711,11 +711,8 @@ def rule_binding(chk, root, cases, regular, regular_cache, model, gcache):
                 exitdiff.add(c["kind"])
             if strip_pos(tin[1]) != strip_pos(reg[1]):
                 owndiff.add(c["kind"])
-        pred_print, pred_own = set(), None
-        for rid in rule.split("+"):
-            pred_print |= set(model["predict"][rid]["prints"])
-            po = set(model["predict"][rid]["own_output_differs"])
-            pred_own = po if pred_own is None else (pred_own & po)
+        pred_print = set(model["predict"][rule]["prints"])
+        pred_own = set(model["predict"][rule]["own_output_differs"])
         pred_print |= set(base["prints"])
         agree = printing == pred_print and owndiff == pred_own
         out.append({"rule": rule, "predicted_printing": sorted(pred_print), "observed_printing": sorted(printing),
